@@ -10,6 +10,7 @@
    byte-identical text and equal truth tables on every run. *)
 From Coq Require Import List Bool NArith String.
 From PC Require Import Base.Result Model.Generic Model.Marker Model.MarkerAlg Proofs.GenericProofs Proofs.MarkerProofs Proofs.MarkerAlgProofs Proofs.LeafRebuild Proofs.StringClass Proofs.ExtraClass.
+From PC Require Import Model.Pep440 Spec.Pep440Spec Model.VConstraint Proofs.DiffUnion Proofs.Closure Proofs.Pep440RoundTrip Proofs.ClauseText Proofs.ConstraintText Proofs.VersionClass.
 Import ListNotations.
 Open Scope string_scope.
 
@@ -118,3 +119,41 @@ Theorem C07_intersect_union_string_extra_markers : forall E extras, e_extras E =
   (forall r, m_union fuel st a b = Ok r -> beval E r = beval E a || beval E b /\ G (BR E) r).
 Proof. exact both_intersect_union. Qed.
 Print Assumptions C07_intersect_union_string_extra_markers.
+
+(* ... and, with no premise left, for comparison clauses of python_full_version: every comparison (>=, <=, >, <, ==, !=) with a literal
+   of a set B of literals in normal form that are mutually regular (any two equal or of different releases), of three components or
+   not purely numeric ([pad_ok]: the constructor does not pad them), without local label - on every environment whose interpreter
+   version (given in normal form) is regular for B.  [VR B] is a clause class (Proofs/VersionClass.v): the same-variable merge goes
+   through the version-constraint algebra, which is exact and closed on the class of C05_class_closed_and_exact, and a single-clause
+   result through SingleMarker(name, constraint): the printer of the constraint and SingleMarker.__init__ on the printed text. *)
+Theorem C07_version_clauses_form_a_class : forall E ev, printable ev = true -> lookup pfv (e_vars E) = Some (to_string ev) ->
+  forall B, mutual B -> (forall v, In v B -> normal v = true /\ pad_ok v = true /\ is_local v = false) -> regB B (reparsed ev) = true ->
+  clause_class E (VR B).
+Proof. exact version_clause_class. Qed.
+Print Assumptions C07_version_clauses_form_a_class.
+Theorem C07_intersect_union_version_markers : forall E ev, printable ev = true -> lookup pfv (e_vars E) = Some (to_string ev) ->
+  forall B, mutual B -> (forall v, In v B -> normal v = true /\ pad_ok v = true /\ is_local v = false) -> regB B (reparsed ev) = true ->
+  forall fuel st a b, G (VR B) a -> G (VR B) b ->
+  (forall r, m_intersect fuel st a b = Ok r -> beval E r = beval E a && beval E b /\ G (VR B) r) /\
+  (forall r, m_union fuel st a b = Ok r -> beval E r = beval E a || beval E b /\ G (VR B) r).
+Proof. exact version_intersect_union. Qed.
+Print Assumptions C07_intersect_union_version_markers.
+Theorem C07_parsed_version_clause_in_class : forall B, (forall v, In v B -> normal v = true /\ pad_ok v = true /\ is_local v = false) ->
+  forall op v, In op vops -> In v B -> exists l, mk_leaf pfv (op ++ to_string v) false = Ok l /\ VR B (MSingle l).
+Proof. exact version_clause_of_text. Qed.
+Print Assumptions C07_parsed_version_clause_in_class.
+(* the three classes together: string clauses, 'extra' clauses and python_full_version comparisons in one marker *)
+Theorem C07_intersect_union_string_extra_version_markers : forall E extras, e_extras E = Some extras ->
+  forall ev, printable ev = true -> lookup pfv (e_vars E) = Some (to_string ev) ->
+  forall B, mutual B -> (forall v, In v B -> normal v = true /\ pad_ok v = true /\ is_local v = false) -> regB B (reparsed ev) = true ->
+  forall fuel st a b, G (AR E B) a -> G (AR E B) b ->
+  (forall r, m_intersect fuel st a b = Ok r -> beval E r = beval E a && beval E b /\ G (AR E B) r) /\
+  (forall r, m_union fuel st a b = Ok r -> beval E r = beval E a || beval E b /\ G (AR E B) r).
+Proof. exact all_intersect_union. Qed.
+Print Assumptions C07_intersect_union_string_extra_version_markers.
+(* not vacuous: four literals, the interpreter 3.9.7, two markers of depth two and three over them *)
+Example C07_version_class_runs :
+  let a := MUnion [ex_leaf ">=" "3.9.0"; ex_leaf "<" "3.8.1"] in
+  let b := MMulti [ex_leaf "<" "3.11.4"; MUnion [ex_leaf "!=" "3.10.0"; ex_leaf ">=" "3.9.0"]] in
+  exists r, m_intersect FUEL ST0 a b = Ok r /\ beval ex_env r = beval ex_env a && beval ex_env b.
+Proof. exact version_class_runs. Qed.
